@@ -95,6 +95,10 @@ func (c content) lmLine() (string, bool) {
 		}
 		return freshlib.DateLine(c.LM, kind), true
 	case "bad":
+		if (int(c.Version)+c.Salt)%2 == 0 && !c.LM.IsZero() {
+			// a date with a numeric zone: not one of the three forms of an HTTP date — as unusable as any other text
+			return c.LM.In(time.FixedZone("", 2*3600)).Format(time.RFC1123Z), true
+		}
 		return "yesterday at noon", true
 	}
 	return "", false
@@ -964,7 +968,7 @@ func main() {
 	w := &emit.Writer{Dir: *flagOut, Prefix: "reval", ShardSize: 60,
 		Imports:  "From Reservoir Require Import Base.Prelude Model.Freshness Model.Proxy Check.Proxy.",
 		CaseType: "pcase", CheckFn: checkFn}
-	meta.Rule = "sequential request histories (5-12 steps) for one resource each against the real in-process proxy with a raw scripted origin: steps = request (GET 90%, HEAD/POST/PUT/DELETE; client conditionals in 45% of the requests: If-None-Match / If-Modified-Since / If-Match / If-Unmodified-Since / If-Range with strong, weak, *, empty, list tags and IMF / RFC 850 / asctime / garbage / empty dates, repeated lines) answered by the origin from its current content and the validators it is shown (62%) or by a script of explicit statuses (304, 200, no-store, 404, 410, 500, 503, 416, 204, 203, 201); origin content change 28% / validator-only change 10% per request (ETag strong, weak, none, empty; Last-Modified none, IMF, RFC 850, asctime, unparseable; bodies of 0-5000 bytes) | clock advance {3s..31d} through the ageing hook, >= 2.5 s away from every candidate expiry instant | configuration switch (policy, default lifetime, retry_on_range_416) | removal of the entry | cache faults per scenario group (see the distribution: fault, between_requests). distinct = every history; non-trivial = a history with a HIT, a revalidation or an injected fault"
+	meta.Rule = "sequential request histories (5-12 steps) for one resource each against the real in-process proxy with a raw scripted origin: steps = request (GET 90%, HEAD/POST/PUT/DELETE; client conditionals in 45% of the requests: If-None-Match / If-Modified-Since / If-Match / If-Unmodified-Since / If-Range with strong, weak, *, empty, list tags and IMF / RFC 850 / asctime / garbage / empty dates, repeated lines) answered by the origin from its current content and the validators it is shown (62%) or by a script of explicit statuses (304, 200, no-store, 404, 410, 500, 503, 416, 204, 203, 201); origin content change 28% / validator-only change 10% per request (ETag strong, weak, none, empty; Last-Modified none, IMF, RFC 850, asctime, unparseable (text, or a date with a numeric zone +0200); bodies of 0-5000 bytes) | clock advance {3s..31d} through the ageing hook, >= 2.5 s away from every candidate expiry instant | configuration switch (policy, default lifetime, retry_on_range_416) | removal of the entry | cache faults per scenario group (see the distribution: fault, between_requests). distinct = every history; non-trivial = a history with a HIT, a revalidation or an injected fault"
 
 	type group struct {
 		sc scenario
